@@ -170,6 +170,13 @@ def declared_job(job) -> dict:
                (I("http://a/s"), I("http://a/p"), L("z" * n)),
                (I("http://a/s"), I("http://a/q"), L("last"))]
         preset = (16, 4, 4)
+    elif rule == "nested":
+        # one RDF-star statement with n names in nested quoted triples, name table of 8:
+        # refused, or (if written) valid and decoding to the statement
+        from mc.checks import c18  # noqa: PLC0415
+
+        seq = [c18.nested_statement(n)]
+        preset = (8, 0, 0)
     else:
         seq, preset = c05.declared_case(rule, n)
     case = {"family": "D", "api": api, "rule": rule, "n": n, "cls": "triple",
@@ -177,7 +184,8 @@ def declared_job(job) -> dict:
     acc.evals += 1
     acc.counters["ns_cases"] += 1  # (outside the closed-form count of the C01/C02 spaces)
     try:
-        opts = DR.make_options("triple", preset, 250, True, generalized=False, rdf_star=False)
+        star = rule == "nested"
+        opts = DR.make_options("triple", preset, 250, True, generalized=star, rdf_star=star)
         data = (DR.g_write if api == "generic" else DR.r_write)(seq, "triple", opts,
                                                                "stream_frames_gen")
     except Exception:  # noqa: BLE001
@@ -387,6 +395,7 @@ def run(ctx) -> None:
              for pi in range(len(c14.PRESETS)) for lo, hi in pool.split_range(nb, 2)]
     njobs += [("D", api, rule, n) for api in ("generic", "rdflib")
               for rule in ("name", "prefix", "datatype") for n in (4096, 4097, 5000)]
+    njobs += [("D", "generic", "nested", n) for n in range(3, 28)]
     njobs += [("D", api, "bigframe", n) for api in ("generic", "rdflib")
               for n in (2_097_000, 2_500_000, 4_800_000)]
     mjobs = [("M", name, 1200 if ctx.quick else 20000) for name in MANUAL_SCOPES]
